@@ -112,11 +112,14 @@ func ruleC05_1(c *Ctx) {
 		// merge loop: every reduced link is stored into the inspection metadata (in the entry point or in the helper
 		// that runs the inspections)
 		merged := false
+		// frames of the inspection stage: the entry point and every helper on the way to VerifyArtifacts(inspect)
 		frames := []*ssa.Function{e.f}
-		if inspVA != nil && inspVA.g != nil {
-			frames = append(frames, inspVA.g)
+		if inspVA != nil {
+			for _, vf := range inspVA.path {
+				frames = append(frames, vf.g)
+			}
 		}
-		for _, fr := range frames {
+		for lvl, fr := range frames {
 			for _, b := range fr.Blocks {
 				for _, in := range b.Instrs {
 					mu, ok := in.(*ssa.MapUpdate)
@@ -143,10 +146,8 @@ func ruleC05_1(c *Ctx) {
 					// the ranged map is the reduced map: directly, or the helper parameter that receives it
 					isReduced := false
 					rv, rat := ssa.Value(rg.X), ssa.Instruction(rg)
-					if fr != e.f && inspVA != nil {
-						if prm, ok := resolve(rv, rat).(*ssa.Parameter); ok && prm.Parent() == fr {
-							rv, rat = inspVA.via.Common().Args[paramIndex(prm)], inspVA.via
-						}
+					if lvl > 0 {
+						rv, rat = inspVA.mapUp(rv, rat, lvl)
 					}
 					if n, i := c.deepProducer(rv, rat); n == "in_toto.ReduceStepsMetadata" && i == 0 {
 						isReduced = true
@@ -166,7 +167,8 @@ func ruleC05_1(c *Ctx) {
 		}
 		c.check(merged, R, fn, "merge reduced links into inspection metadata", e.f.Pos(), "range over ReduceStepsMetadata#0 storing k->v into RunInspections#0", "the reduced step links are not merged into the inspection metadata (inspection rules could not refer to verified step links)")
 		// raw loaded links flow only into the threshold check
-		if ll := firstCall(e.f, "in_toto.LoadLinksForLayout"); ll != nil {
+		if lls := c.stage(e.f, "in_toto.LoadLinksForLayout"); lls != nil {
+			ll := lls.call
 			raw := resultN(ll, 0)
 			bad := ""
 			if raw != nil {
@@ -422,6 +424,7 @@ func ruleC06_1(c *Ctx) {
 			c.check(c.okCallAt(exp, s.Block()), R, fn, "sink call "+calleeName(s), s.Pos(), "dominated by nil-error edge of VerifyLayoutExpiration",
 				"stage is reachable without a successful expiry check of the layout")
 		}
+		c.helperObligations(R, e, exp, "VerifyLayoutExpiration", func(in ssa.CallInstruction) bool { return calleeName(in) == "in_toto.SubstituteParameters" })
 		for _, r := range c.nilErrReturns(e.f) {
 			c.check(c.okCallAt(exp, r.Block()), R, fn, "success return", instrPos(r), "dominated by nil-error edge of VerifyLayoutExpiration", "a success return is reachable without a successful expiry check")
 		}
@@ -789,8 +792,9 @@ func ruleC08_3(c *Ctx) {
 	c.check(replaced, R, fn, "summary link replaces the sublayout under the same key", s.rec.Pos(), "linkData[k] = summary on the nil-error edge", "the sublayout's summary link is not stored back under the functionary's key id")
 	// step name passed down = outer key: the callee parameter that reaches GetSummaryLink's name argument
 	nameIdx := -1
-	if gs := firstCall(s.recFn, "in_toto.GetSummaryLink"); gs != nil {
-		if prm, ok := resolve(gs.Common().Args[2], gs).(*ssa.Parameter); ok {
+	if gs := c.stage(s.recFn, "in_toto.GetSummaryLink"); gs != nil {
+		v, at := gs.arg(2)
+		if prm, ok := resolve(v, at).(*ssa.Parameter); ok && prm.Parent() == s.recFn {
 			nameIdx = paramIndex(prm)
 		}
 	}
@@ -808,8 +812,9 @@ func ruleC08_4(c *Ctx) {
 	fn := fname(s.f)
 	// link-dir parameter of the callee: the string parameter that reaches LoadLinksForLayout arg 1
 	dirIdx := -1
-	if ll := firstCall(s.recFn, "in_toto.LoadLinksForLayout"); ll != nil {
-		if prm, ok := resolve(ll.Common().Args[1], ll).(*ssa.Parameter); ok {
+	if ll := c.stage(s.recFn, "in_toto.LoadLinksForLayout"); ll != nil {
+		v, at := ll.arg(1)
+		if prm, ok := resolve(v, at).(*ssa.Parameter); ok && prm.Parent() == s.recFn {
 			dirIdx = paramIndex(prm)
 		}
 	}
